@@ -401,7 +401,6 @@ GUARD_POINTER_CONDS = {
     'size_ty change = internal_range_length (pos, end_ptr ())': 'decide (e.size - e.pos ≠ 0)',
     '! has_allocation () || get_size () == get_capacity ()': None,  # parsed normally
     '&other != this': '(!e.sameObject)',
-    'size () <= pos': 'decide (e.size ≤ e.pos)',
     'curr == last': None, 'first == last || curr == last': None,
 }
 
@@ -428,7 +427,16 @@ def extract_conditions(body):
     return res
 
 
-def translate_guard(cond):
+# in the public class `pos` is an index (size_type), not a pointer, and the size is read through `size ()`
+PUBLIC_GUARD_ATOMS = dict(GUARD_ATOMS, pos=('e.pos', 'nat'), size=('e.size', 'nat'), capacity=('e.cap', 'nat'), max_size=('e.maxSize', 'nat'))
+
+
+def translate_guard(cond, public=False):
+    if public:
+        e = Expr(tokenize(cond), PUBLIC_GUARD_ATOMS).parse()
+        if e[1] != 'bool':
+            raise Untranslatable('guard is not Boolean: ' + cond)
+        return e[0]
     if cond in GUARD_POINTER_CONDS and GUARD_POINTER_CONDS[cond] is not None:
         return GUARD_POINTER_CONDS[cond]
     e = Expr(tokenize(cond), GUARD_ATOMS).parse()
@@ -654,7 +662,7 @@ def gen_guards(h, report):
             cur = []
             for cond in conds:
                 try:
-                    cur.append((cond, translate_guard(cond), None))
+                    cur.append((cond, translate_guard(cond, public=fn in PUBLIC_GUARD_FUNCTIONS), None))
                 except Untranslatable as ex:
                     cur.append((cond, None, str(ex)))
             current[key] = (f['line'], cur)
